@@ -283,10 +283,37 @@ class Polygon(BaseGeometry):
             cy = cy + (ay + by) * w
         return Point(_w(cx / (6 * a)), _w(cy / (6 * a)))
 
+    def _convexity(self):
+        """+1: convex counter-clockwise, -1: convex clockwise, 0: not (known to be) convex; decided once per polygon
+        (a fork when the vertices are symbolic).  Convex rings get the simpler same-side test."""
+        if hasattr(self, "_convex"):
+            return self._convex
+        r = self._ring()
+        n = len(r)
+        self._convex = 0
+        if n <= 6:
+            cr = [z3.simplify(_cross(r[i][0], r[i][1], r[(i + 1) % n][0], r[(i + 1) % n][1], r[(i + 2) % n][0], r[(i + 2) % n][1]))
+                  for i in range(n)]
+            c = ctx()
+            if c.decide(z3.And([x >= 0 for x in cr] + [z3.Or([x > 0 for x in cr])])):
+                self._convex = 1
+            elif c.decide(z3.And([x <= 0 for x in cr] + [z3.Or([x < 0 for x in cr])])):
+                self._convex = -1
+        return self._convex
+
+    def _contains_pt(self, px, py):
+        ring = self._ring()
+        cv = self._convexity()
+        if cv == 0:
+            return point_in_ring(ring, px, py)
+        n = len(ring)
+        sides = [_cross(ring[i][0], ring[i][1], ring[(i + 1) % n][0], ring[(i + 1) % n][1], px, py) for i in range(n)]
+        return z3.And([x >= 0 for x in sides]) if cv > 0 else z3.And([x <= 0 for x in sides])
+
     def intersects(self, other):
         ring = self._ring()
         if isinstance(other, Point):
-            return _sb(point_in_ring(ring, _t(other.x), _t(other.y)))
+            return _sb(self._contains_pt(_t(other.x), _t(other.y)))
         if isinstance(other, Disc):
             cx, cy, r = _t(other.x), _t(other.y), _t(other.r)
             n = len(ring)
